@@ -355,7 +355,13 @@ def judge(run, cases, res, status, verbose=False):
                 run.failing({"kind": "input-mutated", "resource": c["kind"], "scenario": o.get("scenario")}, [slim(c)],
                             "the generator wrote into the objects it was given (history %s): %s" % (o.get("scenario"), "; ".join(o["mutated"])[:500]),
                             theorem="Determ.Proofs.history_independent (hypothesis: the step leaves its inputs alone)")
-            if differs:
+            if differs and (o.get("scenario") or "").startswith("batch:"):
+                d = o.get("diff") or {}
+                run.failing({"kind": "batch-dependent-output", "entry": o.get("scenario")}, [slim(c)],
+                            "a resource is rendered to different bytes alone and as part of a batch (%s, %s): %s line %s: alone %r vs in the batch %r (block %r)"
+                            % (o.get("scenario"), "NGINX Plus" if c["plus"] else "NGINX", d.get("file"), d.get("line"), d.get("a"), d.get("b"), d.get("block")),
+                            theorem="Determ.Model.history_ok (C09_history_independent: the per-resource state of the generator must not survive the resource)")
+            elif differs:
                 d = o.get("diff") or {}
                 run.failing({"kind": "history-dependent-output", "resource": c["kind"], "scenario": o.get("scenario")}, [slim(c)],
                             "the files for the same resources depend on what was rendered before (history %s): a configurator that rendered input A first "
@@ -436,7 +442,11 @@ def check(run):
                        "Configurator from pristine objects, in 3 processes; all renderings of B must be byte-identical and no stored object modified; plus settings histories: "
                        "4 custom-template ConfigMap keys (main / ingress / virtualserver / transportserver) x 7 sequences (set-remove-set same / other text, set-other-back, "
                        "unset-set-unset, ...) through the real ParseConfigMap -> CfgParams -> Configurator.UpdateConfig with one resource of every kind, compared with a fresh "
-                       "Configurator given only the last ConfigMap.  A case is distinct by "
+                       "Configurator given only the last ConfigMap; App Protect policies / log configurations deleted and re-created under their name (new UID and spec, generation 1 "
+                       "again) delivered as one update through AddOrUpdateResources and AddOrUpdateAppProtectResource; batch versus single: 3 VirtualServers (the first with an OIDC "
+                       "policy), an Ingress and a TransportServer through each of 7 batch entry points (AddOrUpdateResources in both orders, UpdateConfig, AddOrUpdateVirtualServers, "
+                       "UpdateVirtualServers, UpdateEndpointsForVirtualServers, AddOrUpdateAppProtectResource) against each resource rendered alone by a fresh Configurator.  "
+                       "What is compared is the state of the disk: EVERY file written and not deleted (NGINX configuration, secrets, App Protect and DoS files).  A case is distinct by "
                        "(family, fixture, plus, seed, sizes); non-trivial: largest unordered collection >= 2 entries (render/unit), A and B render differently (history).")
     run.cov["trusted_base"] = TRUSTED
     run.assumptions += [
